@@ -43,6 +43,7 @@ fn profile() -> Profile<'static> {
         p_pool_sub_name: 20,
         dup_names: &[],
         p_dup: 0,
+        p_cond_call: 0,
     }
 }
 
